@@ -79,8 +79,8 @@ PROPS.update({
         prefer_json_tests=["TestHedgedRetryEvents"], replay_reps=300,
         rule=COMPOSE_RULE + "at least 3 distinct listener kinds fired and at least one of {abort, exhaustion, rejection, cache hit, fallback, timeout, nested retries}. Every listener of every builder and of the executor is registered into one recorder. TestEventsConcurrent: 2..12 executions with different scripts share one executor and its listeners; each execution's events (attributed through the context) must equal the model's prediction for its own script. TestEventsWhenWaitsAreCancelled: an execution waiting an hour for a bulkhead permit, a limiter permit or a retry delay is cancelled; rejection / retry / exhaustion listeners must stay silent; also Retry(RateLimiter) on a stopwatch the harness owns, where a first attempt is refused for real and a later attempt is cancelled during an allowed wait: OnRateLimitExceeded fires for the refusal only. TestHedgedRetryEvents: Hedge(Retry(fn)) with a hedge that only accepts successes, so 2..4 branches of one execution share the retry policy's executor; every invocation parks and the harness lets them return one at a time in a generated order or all at once; OnRetriesExceeded at most once (exactly once with ExceededError), invocations = 1 + OnHedge + OnRetry, OnRetry <= OnRetryScheduled, one completion event; non-trivial when at least two branches were parked together and a retry was decided or the retries were exceeded.",
         assumptions=COMPOSE_ASSUMPTIONS + ["a result that reaches a retry policy after the same execution has already exhausted it (nested retries, a hedge outside) passes through unclassified: the executor's OnSuccess/OnFailure verdict is not judged against the error for such executions"]),
-    "C17": dict(pkg="./props/c17_stats", tests=[REGRESS(), T("TestStats", (8, 6000), (16, 120000)), T("TestHedgedStats", (4, 1000), (8, 15000), pkg="./props/c09_hedge"), T("TestHedgedRetryStats", (2, 1500), (4, 20000), pkg="./props/c09_hedge"), T("TestAttemptViewStable", (2, 400), (4, 6000)), T("TestScheduledEventUnderTimeout", (2, 300), (4, 5000)), T("TestHedgedRetryEvents", (2, 400), (4, 6000), pkg="./props/c16_events")],
-        rule=COMPOSE_RULE + "(every listener payload is kept and read again when the execution is over: LastResult, LastError -- unless the context ended meanwhile -- StartTime and AttemptStartTime still say what they said on delivery; the counters are shared between copies by design and are not compared) (OnRetry for attempt k and the function entered for attempt k read the same AttemptStartTime) (TestScheduledEventUnderTimeout: Timeout(Retry(fn)) where the Timeout fires while the retry policy computes the delay after attempt k: OnFailure and OnRetryScheduled for attempt k still report attempt k's result and error) (TestHedgedRetryEvents, from the C16 harness: ElapsedAttemptTime of a parked attempt never goes backwards while other branches retry) at least one retry happened and at least one attempt was rejected before reaching the function (breaker, bulkhead or rate limiter). Observation points: function entry, every listener, fallback functions, completion events. Hedged executions (TestHedgedStats, from the C09 harness) count as non-trivial when at least two attempts overlapped.",
+    "C17": dict(pkg="./props/c17_stats", tests=[REGRESS(), T("TestStats", (8, 6000), (16, 120000)), T("TestHedgedStats", (4, 1000), (8, 15000), pkg="./props/c09_hedge"), T("TestHedgedRetryStats", (2, 1500), (4, 20000), pkg="./props/c09_hedge"), T("TestAttemptViewStable", (2, 400), (4, 6000)), T("TestScheduledEventUnderTimeout", (2, 300), (4, 5000)), T("TestHedgeFlagAcrossRetries", (2, 1000), (4, 20000)), T("TestHedgedRetryEvents", (2, 400), (4, 6000), pkg="./props/c16_events")],
+        rule=COMPOSE_RULE + "(TestHedgeFlagAcrossRetries: Hedge(Retry(fn)) where all branches but one stay parked and the remaining one -- first attempt or a hedge, as drawn -- fails 1..4 times and is retried inside its branch: IsHedge says the same thing at every entry and retry event of that branch, exactly one of the first maxHedges+1 entries is not a hedge, and the counters add up) (the OnHedge event's execution reports IsHedge) (every listener payload is kept and read again when the execution is over: LastResult, LastError -- unless the context ended meanwhile -- StartTime and AttemptStartTime still say what they said on delivery; the counters are shared between copies by design and are not compared) (OnRetry for attempt k and the function entered for attempt k read the same AttemptStartTime) (TestScheduledEventUnderTimeout: Timeout(Retry(fn)) where the Timeout fires while the retry policy computes the delay after attempt k: OnFailure and OnRetryScheduled for attempt k still report attempt k's result and error) (TestHedgedRetryEvents, from the C16 harness: ElapsedAttemptTime of a parked attempt never goes backwards while other branches retry) at least one retry happened and at least one attempt was rejected before reaching the function (breaker, bulkhead or rate limiter). Observation points: function entry, every listener, fallback functions, completion events. Hedged executions (TestHedgedStats, from the C09 harness) count as non-trivial when at least two attempts overlapped.",
         assumptions=COMPOSE_ASSUMPTIONS + ["LastResult/LastError are not compared at observation points where the execution's context is already done (LastError then reports the context error by design)"]),
 })
 
